@@ -1127,3 +1127,128 @@ def _mk_sweep(i, n):
 SWEEP_SHARDS = 8
 for _i in range(SWEEP_SHARDS):
     globals()["no_swallow_sweep_%d" % _i] = _mk_sweep(_i, SWEEP_SHARDS)
+
+
+# ---------------------------------------------------------------------------------------------
+# C04: creation path, recovery's truncate flag, the background fsyncer
+
+def create_durable(ctx):
+    """Database creation: every file that is created / sized is fsynced before its creator returns Ok, and
+    store::create fsyncs the directory after the last file was created and before it returns Ok."""
+    prog = ctx.program("nomt")
+    qs, enc = [], set()
+    # store::create: directory fsync last
+    f = _fn(prog, r"^store::create$", "store/mod.rs")
+    cfg = pathsmt.Cfg(f)
+    table = [(r"File::create|OpenOptions::open|Meta::write|ht_file::create|bitbox::create|beatree::create", None, [("set", "dir_dirty")]),
+             (r"File::sync_all|File::sync_data", r"db_dir_fd|dir", [("clear", "dir_dirty")])]
+    ops, hits = _events(cfg, table)
+    _require(table[:1], hits[:1], "store::create")
+    oks = _ok_blocks(cfg)
+    if not oks:
+        raise Unmatched("no Ok block in store::create")
+    for bb in oks:
+        ops.setdefault(bb, []).append(("bad_if", "dir_dirty"))
+    qs.append(PQuery("store::create: the directory is fsynced after the last file was created, before Ok", cfg, ops, ["dir_dirty"], {},
+                     scenario="c04_create_durable", key="store::create:Ok without a final directory fsync"))
+    qs.append(PQuery("store::create: Ok is reachable", cfg, {bb: [("bad", None)] for bb in oks}, [], {}, expect="sat"))
+    enc.add("store::create @ nomt/src/store/mod.rs")
+    # the per-file creators: one flag per file handle (recognised by the variable name in the source text)
+    for rx, fh, nm, handles in [(r"^bitbox::ht_file::create$|^ht_file::create$", "bitbox/ht_file.rs", "bitbox::create", ["ht_file", "wal_file"]),
+                                (r"^beatree::create$", "beatree/mod.rs", "beatree::create", ["ln_fd", "bbn_fd"])]:
+        f = _fn(prog, rx, fh)
+        cfg = pathsmt.Cfg(f)
+        ops, seen = {}, set()
+        for bb in cfg.order:
+            b = cfg.blocks[bb]
+            if not b.call:
+                continue
+            callee, text = b.call[1], b.call[3] or ""
+            dst_txt = ""
+            for h in handles:
+                # `let h = File::create(..)` / `OpenOptions::..open(..)`: the statement's text names the handle on its left
+                if re.search(r"File::create|OpenOptions::open", callee):
+                    ln = pathsmt.src_text((b.spans[-1][0], b.spans[-1][1], 1, b.spans[-1][1], 200)) if b.spans and b.spans[-1] else ""
+                    if re.search(r"let\s+%s\b" % h, ln):
+                        ops.setdefault(bb, []).append(("set", "dirty_" + h))
+                        seen.add(h)
+                elif re.search(r"File::set_len|resize_and_prealloc|write_all", callee) and re.search(r"\b%s\b" % h, text):
+                    ops.setdefault(bb, []).append(("set", "dirty_" + h))
+                elif re.search(r"File::sync_all|File::sync_data", callee) and re.search(r"\b%s\b" % h, text):
+                    ops.setdefault(bb, []).append(("clear", "dirty_" + h))
+        if len(seen) != len(handles):
+            raise Unmatched("%s: file handles %s not all found (found %s)" % (nm, handles, sorted(seen)))
+        oks = _ok_blocks(cfg)
+        if not oks:
+            raise Unmatched("no Ok block in " + nm)
+        flags = ["dirty_" + h for h in handles]
+        for bb in oks:
+            ops.setdefault(bb, []).extend([("bad_if", fl) for fl in flags])
+        qs.append(PQuery("%s: every created / sized file is fsynced before Ok" % nm, cfg, ops, flags, {},
+                         scenario="c04_create_durable", key="%s:Ok with a created file not fsynced" % nm))
+        qs.append(PQuery("%s: Ok is reachable" % nm, cfg, {bb: [("bad", None)] for bb in oks}, [], {}, expect="sat"))
+        enc.add("%s @ nomt/src/%s" % (nm, fh))
+    return qs, enc
+
+
+def fsyncer_order(ctx):
+    """io::fsyncer::worker: in every round the file is fsynced after the request was observed (the
+    condition-variable wait returned) and before the result is published as Done; bitbox::recover asks
+    truncate_wal to fsync."""
+    prog = ctx.program("nomt")
+    qs, enc = [], set()
+    f = _fn(prog, r"^io::fsyncer::worker$|^worker$", "io/fsyncer.rs")
+    cfg = pathsmt.Cfg(f)
+    ops = {}
+    n_wait = n_sync = n_done = 0
+    for bb in cfg.order:
+        b = cfg.blocks[bb]
+        o = []
+        if b.call and re.search(r"Condvar::wait_while|Condvar::wait\b", b.call[1]):
+            o += [("set", "requested"), ("clear", "synced")]
+            n_wait += 1
+        if b.call and re.search(r"File::sync_all|File::sync_data", b.call[1]):
+            o += [("bad_unless", "requested"), ("set", "synced")]
+            n_sync += 1
+        for st in b.stmts:
+            if re.search(r"= (io::fsyncer::|fsyncer::)?State::Done\(", st):
+                o += [("bad_unless", "synced"), ("clear", "synced"), ("clear", "requested")]
+                n_done += 1
+        if o:
+            ops[bb] = o
+    if not (n_wait and n_done):
+        raise Unmatched("fsyncer worker: wait / Done events not found")
+    qs.append(PQuery("fsyncer worker: request observed -> fsync -> Done, in every round", cfg, ops, ["requested", "synced"], {},
+                     scenario="c04_commit_order", key="fsyncer worker:Done published without an fsync after the request"))
+    done_bbs = [bb for bb in cfg.order if any(re.search(r"State::Done\(", st) for st in cfg.blocks[bb].stmts)]
+    qs.append(PQuery("fsyncer worker: Done is reachable", cfg, {bb: [("bad", None)] for bb in done_bbs}, [], {}, expect="sat"))
+    enc.add("io::fsyncer::worker @ nomt/src/io/fsyncer.rs")
+
+    f = _fn(prog, r"^recover$", "bitbox/mod.rs")
+    cfg = pathsmt.Cfg(f)
+    calls = [bb for bb in cfg.order if cfg.blocks[bb].call and re.search(r"truncate_wal", cfg.blocks[bb].call[1])]
+    if not calls:
+        raise Unmatched("recover does not call truncate_wal")
+    bad = [bb for bb in calls if not re.search(r"const true", cfg.blocks[bb].call[2])]
+    qs.append(PQuery("recover: every truncate_wal is asked to fsync (do_sync = true)", cfg, {bb: [("bad", None)] for bb in bad}, [], {},
+                     scenario="c04_recover_fsync", key="recover:WAL truncated without fsync"))
+    f = _fn(prog, r"^truncate_wal$", "bitbox/writeout.rs")
+    cfg = pathsmt.Cfg(f)
+    ops = {}
+    for bb in cfg.order:
+        b = cfg.blocks[bb]
+        if b.switch_on and b.switch_on.strip() == "_2":
+            t = dict(b.succ).get("otherwise")
+            if t:
+                ops.setdefault(t, []).insert(0, ("set", "must_sync"))
+        if b.call and re.search(r"File::sync_all|File::sync_data", b.call[1]):
+            ops.setdefault(bb, []).append(("clear", "must_sync"))
+    oks = _ok_blocks(cfg)
+    for bb in oks:
+        ops.setdefault(bb, []).append(("bad_if", "must_sync"))
+    if not oks or not any(o[0] == "set" for v in ops.values() for o in v):
+        raise Unmatched("truncate_wal: no branch on do_sync / no Ok block")
+    qs.append(PQuery("truncate_wal: do_sync = true implies fsync before Ok", cfg, ops, ["must_sync"], {},
+                     scenario="c04_recover_fsync", key="truncate_wal:do_sync ignored"))
+    enc.add("bitbox::recover, bitbox::writeout::truncate_wal @ nomt/src/bitbox")
+    return qs, enc
